@@ -155,13 +155,69 @@ func (f *Field) rng(vs ...*big.Int) string {
 	return "reduced"
 }
 
+// rowRep buffers the violations of one row of a parallel sweep so that they can
+// be handed to the engine in row order afterwards: the engine keeps the first
+// record per key, and with this the stored record does not depend on scheduling.
+type rowRep struct {
+	Reporter
+	items []rowItem
+	seen  map[string]int
+}
+
+type rowItem struct {
+	key, caseID, what string
+	replay            interface{}
+	extra             int // further occurrences of the key in this row (not formatted)
+}
+
+func newRows(r Reporter, n int) []*rowRep {
+	rows := make([]*rowRep, n)
+	for i := range rows {
+		rows[i] = &rowRep{Reporter: r}
+	}
+	return rows
+}
+
+func (rr *rowRep) Violation(key, caseID, what string, replay interface{}) {
+	if rr.seen == nil {
+		rr.seen = map[string]int{}
+	}
+	if k, ok := rr.seen[key]; ok {
+		rr.items[k].extra++
+		return
+	}
+	rr.seen[key] = len(rr.items)
+	rr.items = append(rr.items, rowItem{key: key, caseID: caseID, what: what, replay: replay})
+}
+
+func flushRows(r Reporter, rows []*rowRep) {
+	for _, rr := range rows {
+		for _, it := range rr.items {
+			r.Violation(it.key, it.caseID, it.what, it.replay)
+			for k := 0; k < it.extra; k++ {
+				r.Violation(it.key, it.caseID, "", nil)
+			}
+		}
+	}
+}
+
 type seenKey struct {
 	once sync.Once
 }
 
-// Report records a violation (formatting only the first occurrence of a key).
+// Report records a violation. Inside a parallel sweep the first occurrence of a
+// key in each row is formatted; elsewhere the first occurrence overall.
 func (f *Field) Report(r Reporter, op, class, alias, rng, caseID string, detail func() (string, interface{})) {
 	key := f.Prop + "|" + f.Name + "." + op + "|" + class + "|" + alias + "|" + rng
+	if rr, ok := r.(*rowRep); ok {
+		if _, dup := rr.seen[key]; dup {
+			rr.Violation(key, caseID, "", nil)
+			return
+		}
+		what, rep := detail()
+		rr.Violation(key, caseID, what, rep)
+		return
+	}
 	c, _ := f.seen.LoadOrStore(key, new(seenKey))
 	first := false
 	c.(*seenKey).once.Do(func() {
@@ -230,7 +286,9 @@ func (f *Field) inputKept(x, master Elem, red *big.Int, tmp *big.Int) bool {
 func (f *Field) CheckBin(r Reporter, op BinOp, xs, ys *Set, distinct bool) {
 	var evals, undefined int64
 	sameSet := xs == ys
+	rows := newRows(r, xs.Len())
 	f.par(xs.Len(), func(i int) {
+		r := Reporter(rows[i])
 		if r.Expired() {
 			return
 		}
@@ -311,6 +369,7 @@ func (f *Field) CheckBin(r Reporter, op BinOp, xs, ys *Set, distinct bool) {
 		atomic.AddInt64(&undefined, und)
 		r.Eval(int(ev))
 	})
+	flushRows(r, rows)
 	r.Count(f.Name+"."+op.Name, int(evals))
 	if undefined > 0 {
 		r.Count(f.Name+"."+op.Name+".undefined-skipped", int(undefined))
@@ -320,7 +379,9 @@ func (f *Field) CheckBin(r Reporter, op BinOp, xs, ys *Set, distinct bool) {
 // CheckUn runs a unary op on every element (distinct junk-filled output and z=x).
 func (f *Field) CheckUn(r Reporter, op UnOp, xs *Set, distinct bool) {
 	var evals, undefined int64
+	rows := newRows(r, xs.Len())
 	f.par(xs.Len(), func(i int) {
+		r := Reporter(rows[i])
 		if r.Expired() {
 			return
 		}
@@ -385,6 +446,7 @@ func (f *Field) CheckUn(r Reporter, op UnOp, xs *Set, distinct bool) {
 		atomic.AddInt64(&evals, ev)
 		r.Eval(int(ev))
 	})
+	flushRows(r, rows)
 	r.Count(f.Name+"."+op.Name, int(evals))
 	if undefined > 0 {
 		r.Count(f.Name+"."+op.Name+".undefined-skipped", int(undefined))
@@ -394,7 +456,9 @@ func (f *Field) CheckUn(r Reporter, op UnOp, xs *Set, distinct bool) {
 // CheckPred runs a predicate on every element and checks the input keeps its residue.
 func (f *Field) CheckPred(r Reporter, op Pred, xs *Set) {
 	var evals, trues int64
+	rows := newRows(r, xs.Len())
 	f.par(xs.Len(), func(i int) {
+		r := Reporter(rows[i])
 		cid := func() string { return f.Name + "." + op.Name + "#" + xs.Label + itoa(i) }
 		if !f.replayWant(r, cid) {
 			return
@@ -426,6 +490,7 @@ func (f *Field) CheckPred(r Reporter, op Pred, xs *Set) {
 			})
 		}
 	})
+	flushRows(r, rows)
 	r.Eval(int(evals))
 	r.Count(f.Name+"."+op.Name, int(evals))
 	r.Count(f.Name+"."+op.Name+".true", int(trues))
